@@ -16,6 +16,11 @@ BENIGN = [
     ("doo-recommend-first-best", "PyXAB/algos/DOO.py", "                if reward >= max_value:", "                if reward > max_value:", ["C07"]),
     ("sequool-tie-break-first", "PyXAB/algos/SequOOL.py", "                        if node.get_reward() >= max_value:", "                        if node.get_reward() > max_value:", ["C12", "C07"]),
     ("poo-recommend-last-best", "PyXAB/algos/POO.py", "        max_param = np.argmax(V_reward)", "        max_param = len(V_reward) - 1 - np.argmax(V_reward[::-1])", ["C07", "C10", "C15"]),
+    # round 10: the container of the box - a private list-of-lists copy, or a refusal of anything but a list
+    ("partition-copies-box", "PyXAB/partition/Partition.py", "        self.domain = domain\n        self.root = node(0, 1, None, domain)",
+     "        domain = [list(ax) for ax in domain]\n        self.domain = domain\n        self.root = node(0, 1, None, domain)", ["C02", "C03", "C14", "C01"]),
+    ("partition-rejects-non-list", "PyXAB/partition/Partition.py", "        self.domain = domain\n        self.root = node(0, 1, None, domain)",
+     "        if not isinstance(domain, list) or not all(isinstance(ax, list) for ax in domain):\n            raise TypeError('domain must be a list of lists')\n        self.domain = domain\n        self.root = node(0, 1, None, domain)", ["C02", "C14"]),
     ("kary-python-float-bounds", "PyXAB/partition/KaryPartition.py", "            domain[dim] = [boundary_points[i], boundary_points[i + 1]]",
      "            domain[dim] = [float(boundary_points[i]) if i else selected_dim[0], float(boundary_points[i + 1]) if i < self.K - 1 else selected_dim[1]]", ["C02", "C03", "C16", "C01"]),
 ]
